@@ -2,6 +2,7 @@ package work
 
 import (
 	"bytes"
+	"fmt"
 
 	"github.com/oasisprotocol/curve25519-voi/curve"
 	"github.com/oasisprotocol/curve25519-voi/curve/scalar"
@@ -51,6 +52,7 @@ var (
 	c15craftOrd8 = core.RegCounter("c15.crafted.torsion_order_8")
 
 	c15altered   = core.RegCounter("c15.altered_tuples_evaluated")
+	c15kat       = core.RegCounter("c15.rfc9381_known_answer_runs")
 	c15panicSkip = core.RegCounter("c15.cases_skipped_because_the_library_panicked")
 )
 
@@ -120,7 +122,7 @@ func init() {
 			"non-trivial = at least one altered tuple or Byzantine proof was evaluated; distinct = distinct event-log digests",
 		Real: []string{"ecvrf.Prove / Prove_v10 / ProveWithAddedRandomness / ProveWithAddedRandomness_v10", "ecvrf.Verify / Verify_v10 / ProofToHash", "primitives/h2c (encode_to_curve)", "curve, curve/scalar"},
 		Stub: []string{"entropy reader (simio.Entropy: short reads, errors, degenerate content; simio.FixedEntropy for replays)", "the wire between prover and verifier (tape-chosen alteration of pk / pi / alpha)", "a Byzantine prover that knows its own secret scalar"},
-		Init: func(e *Env) error { return model.SelfTestECVRF() },
+		Init: func(e *Env) error { c15ModelErr = model.SelfTestECVRF(); return nil },
 		Run:  runC15,
 	})
 }
@@ -250,12 +252,62 @@ func (c *c15Run) deliver(label string, v10 bool, pk, pi, alpha []byte) (accepted
 	return true, true
 }
 
+// c15ModelErr is set by Init when the RFC 9381 model does not reproduce the RFC's vectors.
+// The model delegates encode_to_curve and point arithmetic to the library, so this happens
+// exactly when those layers no longer compute what the RFC defines on this build; the
+// workload then decides with the library's own answers to the RFC vectors.
+var c15ModelErr error
+
+// c15KnownAnswers checks the library directly against RFC 9381 Appendix B.3 (examples
+// 16-18): proof, verification and output.  Returns true if the run should stop.
+func c15KnownAnswers(r *core.Run) bool {
+	if c15ModelErr == nil && r.Index%97 != 0 {
+		return false
+	}
+	r.Count(c15kat)
+	bad := ""
+	for i, v := range model.ECVRFVectors() {
+		priv := ed25519.NewKeyFromSeed(v.SK)
+		var pi, beta []byte
+		var ok bool
+		pan, _ := Guard(func() {
+			pi = ecvrf.Prove(priv, v.Alpha)
+			ok, beta = ecvrf.Verify(ed25519.PublicKey(priv[32:]), v.Pi, v.Alpha)
+		})
+		if pan || !bytes.Equal(priv[32:], v.PK) || !bytes.Equal(pi, v.Pi) || !ok || !bytes.Equal(beta, v.Beta) {
+			bad = fmt.Sprintf("RFC 9381 example %d: Prove equals the RFC proof: %v, Verify accepts the RFC proof: %v, output equals the RFC output: %v", 16+i, bytes.Equal(pi, v.Pi), ok, bytes.Equal(beta, v.Beta))
+			break
+		}
+	}
+	if bad != "" {
+		r.Fail("exactness", "rfc9381-known-answer", "%s", bad)
+		return true
+	}
+	if c15ModelErr != nil {
+		panic("harness: the RFC 9381 model fails its vectors (" + c15ModelErr.Error() + ") although the library reproduces them: the model is broken")
+	}
+	return false
+}
+
 func runC15(e *Env, r *core.Run) {
 	t := r.T
 	c := &c15Run{r: r, t: t, g: &Gen{T: t}}
-	c.sk = c.g.EdKey()
+	// The private key and the input string live in ONE allocation ("key | gap | input | guard"), so
+	// both slices have spare capacity, as a key read from a file or cut out of a packet has.  A prover
+	// that appends to its arguments overwrites the input that follows the key (later verification
+	// against the caller's input then fails: completeness) and in any case changes the buffer.
+	pg := NewPackedGuarded(c.g.EdKey(), c.g.Msg())
+	c.sk = ed25519.PrivateKey(pg.Part(0))
 	c.pk = clone(c.sk[32:])
-	c.alpha = c.g.Msg()
+	c.alpha = pg.Part(1)
+	defer func() {
+		if !pg.Intact() && len(r.Main.Fails()) == 0 {
+			r.Fail("caller-memory", "caller-buffer-modified", "the buffer holding the caller's private key and input string (key | gap | input | guard) was modified by the ECVRF entry points")
+		}
+	}()
+	if c15KnownAnswers(r) {
+		return
+	}
 	r.Ev("key pk=%s alpha=%s (%d bytes)", core.Hex8(c.pk), core.Hex8(c.alpha), len(c.alpha))
 	failed := func() bool { return len(r.Main.Fails()) > 0 }
 
